@@ -7,6 +7,7 @@ package main
 // yields at lock/commit points.
 
 import (
+	"bytes"
 	"fmt"
 	"io"
 	"os"
@@ -35,6 +36,7 @@ type ConcCfg struct {
 	FileFocus bool // all clients hammer one file (SETATTR/WRITE/GETATTR/READ)
 	HalfFreed bool // start from a server that was stopped in the middle of a big free: the first allocations are handed a half-freed inode
 	AbortHammer bool // C14: many failing (aborting) requests next to lookups/creates on the same directory; dead handles next to allocations
+	DirMoves bool // directories are moved between parents concurrently (cycles, '..' of the moved directory)
 	Focus    bool // namespace races on two names in one directory whose children have smaller numbers
 	Procs    int
 }
@@ -162,6 +164,8 @@ type world struct {
 	big    []byte
 	names  []string
 	mnames []string
+	tdirs  [][]byte // DirMoves: root followed by the directories t0..t3
+	first  [][]*Op  // per client: requests issued before the generated ones
 }
 
 var concClock int64
@@ -198,6 +202,30 @@ func genConcOp(r *Rng, w *world, mine *[][]byte, uid *uint64, cfg ConcCfg) *Op {
 			*uid++
 			atomic.AddInt64(&w.frontier, 1)
 			return &Op{K: OpCreate, H: w.dirs[0], Name: fmt.Sprintf("n%d", *uid)}
+		}
+	}
+	if cfg.DirMoves {
+		any := func() []byte { return w.tdirs[r.Intn(len(w.tdirs))] }
+		td := func() []byte { return w.tdirs[1+r.Intn(len(w.tdirs)-1)] }
+		tn := func() string { return fmt.Sprintf("t%d", r.Intn(len(w.tdirs)-1)) }
+		switch x := r.Intn(100); {
+		case x < 55:
+			// wherever the directory is now: most requests fail with NOENT,
+			// those that name its current parent move it
+			n := tn()
+			return &Op{K: OpRename, H: any(), Name: n, H2: any(), Name2: n}
+		case x < 70:
+			return &Op{K: OpLookup, H: td(), Name: ".."}
+		case x < 78:
+			return &Op{K: OpLookup, H: any(), Name: tn()}
+		case x < 84:
+			return &Op{K: OpMkdir, H: td(), Name: "m1"}
+		case x < 90:
+			return &Op{K: OpRename, H: td(), Name: "m1", H2: any(), Name2: "m1"}
+		case x < 94:
+			return &Op{K: OpRmdir, H: any(), Name: r.PickS([]string{"m1", tn()})}
+		default:
+			return &Op{K: OpReaddirplus, H: any(), Count: 1 << 20, Dircount: 1 << 20}
 		}
 	}
 	if cfg.FileFocus {
@@ -414,6 +442,39 @@ func runOneHistory(cfg ConcCfg, seed uint64, cas, h int, res *ConcRes) {
 		w.dirs = append(w.dirs, d1)
 		w.files = append(w.files, f1, f2)
 	}
+	if cfg.DirMoves {
+		w.tdirs = [][]byte{srv.Root}
+		crossing := h%2 == 0
+		nd := 4
+		if crossing {
+			nd = 6 // /t0/t2/t4 and /t1/t3/t5
+		}
+		for i := 0; i < nd; i++ {
+			par := srv.Root
+			if crossing && i >= 2 {
+				par = w.tdirs[i-1]
+			} else if !crossing && i > 0 && rng.Intn(2) == 0 {
+				par = w.tdirs[1+rng.Intn(i)]
+			}
+			t := mk(OpMkdir, par, fmt.Sprintf("t%d", i))
+			if t == nil {
+				addV("lin", "setup failed")
+				return
+			}
+			w.tdirs = append(w.tdirs, t)
+		}
+		if crossing {
+			// two renames that lock disjoint inodes and each pass the ancestor
+			// check on their own, but together would close a cycle:
+			// t2 -> below t5 (a descendant of t3) while t3 -> below t4 (a
+			// descendant of t2)
+			t := w.tdirs
+			w.first = [][]*Op{
+				{{K: OpRename, H: t[1], Name: "t2", H2: t[6], Name2: "t2"}},
+				{{K: OpRename, H: t[2], Name: "t3", H2: t[5], Name2: "t3"}},
+			}
+		}
+	}
 	uid := uint64(1000)
 	for _, f := range w.files {
 		uid++
@@ -503,6 +564,9 @@ func runOneHistory(cfg ConcCfg, seed uint64, cas, h int, res *ConcRes) {
 			cuid := uint64(c+1) * 100000
 			for i := 0; i < cfg.OpsPer; i++ {
 				op := genConcOp(r, w, &mine, &cuid, cfg)
+				if c < len(w.first) && i < len(w.first[c]) {
+					op = w.first[c][i]
+				}
 				op.Materialize()
 				ho := &histOp{Client: c, Op: op, Kind: "op"}
 				ho.Call = tick()
@@ -654,6 +718,12 @@ func runOneHistory(cfg ConcCfg, seed uint64, cas, h int, res *ConcRes) {
 	for _, ho := range hist {
 		ops = append(ops, porcupine.Operation{ClientId: ho.Client, Input: ho, Call: ho.Call, Output: ho, Return: ho.Ret})
 		res.Stats.Add(ho.Kind)
+		if cfg.DirMoves && ho.Kind == "op" && ho.Op.K == OpRename && !bytes.Equal(ho.Op.H, ho.Op.H2) {
+			res.Stats.Add(fmt.Sprintf("concurrent cross-directory RENAME of a directory => %s", outcomeStat(ho.Res.Stat)))
+		}
+		if cfg.DirMoves && ho.Kind == "op" && ho.Op.K == OpLookup && ho.Op.Name == ".." {
+			res.Stats.Add(fmt.Sprintf("concurrent LOOKUP('..') of a movable directory => %s", outcomeStat(ho.Res.Stat)))
+		}
 	}
 	r, _ := porcupine.CheckOperationsVerbose(concModel(init), ops, 60*time.Second)
 	switch r {
@@ -673,6 +743,22 @@ func runOneHistory(cfg ConcCfg, seed uint64, cas, h int, res *ConcRes) {
 		}
 	}
 	concMu.Unlock()
+}
+
+func outcomeStat(st uint32) string {
+	switch st {
+	case stOK:
+		return "OK"
+	case 2:
+		return "NOENT"
+	case 22:
+		return "INVAL (own subtree)"
+	case 17:
+		return "EXIST"
+	case 66:
+		return "NOTEMPTY"
+	}
+	return fmt.Sprintf("status %d", st)
 }
 
 func renderHistory(hist []*histOp) string {
